@@ -232,7 +232,7 @@ def run_scenarios(chk: core.Check, scenarios: list[dict], stage: str) -> list[di
                 break
         real_prefix = abstract_events([e for e in r["prefix"] if event_kind(e) in ("ScenarioStarted", "NonFatalError", "ScenarioFinished", "Interrupted")
                                        and getattr(getattr(e, "phase", None), "name", "") != "PROBING"])
-        rec.update({"real_prefix": real_prefix, "arrivals": r["arrivals"], "events": r["events"], "requests_at_end": r.get("requests_at_end"),
+        rec.update({"real_prefix": real_prefix, "arrivals": r["arrivals"], "events": r["events"], "requests_at_end": r.get("requests_at_end"), "requests": r.get("requests"),
                     "model_sent": msent, "model_after_stop": mafter, "model_cp": mcp, "model_closed": mclosed, "model_failed": mfailed,
                     "model_stop": mstop, "model_limit": mlimit})
         nontrivial = len(set(sc["schedule"])) > 1 and len(rec["model_trace"]) > 0
